@@ -106,7 +106,7 @@ func c15Validate(s *c15Scene) error {
 	if len(s.Objs) > 40 {
 		return fmt.Errorf("%d objects", len(s.Objs))
 	}
-	if s.PreOn < 0 || s.PreOn > 3*c13Frame || s.Frames < 0 || s.Frames > 4 {
+	if s.PreOn < 0 || s.PreOn > 3*c13Frame || s.Frames < 0 || s.Frames > 70000 {
 		return fmt.Errorf("pre_on %d / frames %d", s.PreOn, s.Frames)
 	}
 	var cover [144]int
@@ -882,7 +882,7 @@ func TestC15(t *testing.T) {
 	c := vf.New(t, "C15", "rapid scenes inside the statement's preconditions by construction (LCD+BG on, 8x8 objects sorted by X in OAM, <= 10 per line, WX 7-166): tile data = seeded fill "+
 		"(zero / planes equal / one plane / random / mixed) + explicit tiles, both maps (seeded fill + explicit cells), both addressing modes, any SCX/SCY/BGP/OBP0/OBP1, window on/off with WY 0-160, "+
 		"0-40 objects at any position incl. beyond each edge, any attribute byte, OBJ enable on/off; campaign 'backgrounds' has no objects, 'scenes' up to 40, 'crowded' forces objects on with up to 40. "+
-		"Loaded with the LCD off, three frames on machine.HW() (in a third of the scenes the LCD first shows the scene for a drawn part of a frame, is switched off and on again, and 1-3 frames follow), all 23040 pixels of PPU.Frame() compared with the reference renderer through shade->RGBA values calibrated on four flat scenes. "+
+		"Loaded with the LCD off, three frames on machine.HW() (in a third of the scenes the LCD first shows the scene for a drawn part of a frame, is switched off and on again, and 1-3 frames follow), all 23040 pixels of PPU.Frame() compared with the reference renderer through shade->RGBA values calibrated on four flat scenes; a few scenes are judged on frame 255-258 instead. "+
 		"Non-trivial: the reference shows >= 2 distinct background/window colour ids and >= 1 visible object pixel. Distinct = hash of the scene.")
 	defer c.Flush()
 	c.RunReplays()
@@ -946,6 +946,46 @@ func TestC15(t *testing.T) {
 		c.Case("seams", vf.Hash(s), nt, func() interface{} { return s })
 		c15Check(c, rt, "render-seams", s)
 	})
+	// the picture of a late frame: whatever counts frames, lines or window rows must not wrap into it
+	c.Sub("late-frames", func(t *testing.T) {
+		counts := []int{255, 256, 257, 258}
+		if c.Env.Thorough() {
+			counts = append(counts, 511, 512, 513, 65535, 65536, 65537)
+		}
+		var n, nt int64
+		idx := 0
+		for _, fc := range counts {
+			for k := 0; k < 2; k++ {
+				idx++
+				if !c.Env.Mine(idx) {
+					continue
+				}
+				var s c15Scene
+				if k == 0 {
+					s = seams.Example(int(c.Env.RandSeed(15))*7 + idx)
+				} else {
+					s = full.Example(int(c.Env.RandSeed(15))*7 + idx)
+				}
+				s.PreOn, s.Frames = 0, fc
+				if idx%3 == 0 {
+					s.PreOn = 5000 + 131*idx // an interrupted frame first
+				}
+				n++
+				if c15Classify(c, "late-frames/", &s) {
+					nt++
+				}
+				c.Sample("late-frames", s)
+				if sig, err := c15Run(s); err != nil {
+					if known, first := c.FailFirst("render-late-frames", sig, err.Error(), s); !known && first {
+						t.Errorf("%v", err)
+					}
+				}
+			}
+		}
+		c.Bulk("late-frames", n, nt)
+		c.Exhaustive("two drawn scenes for each judged frame number 255-258 (thorough: also 511-513 and 65535-65537)")
+	})
+
 	c.Rapid("crowded", 1600, 60000, func(rt *rapid.T) {
 		s := crowded.Draw(rt, "scene")
 		nt := c15Classify(c, "crowded/", &s)
